@@ -257,6 +257,26 @@ pub fn build_node(n: &Node) -> BP {
             p.map(move |v| V::Cmd(nm.clone(), Box::new(v))).boxed()
         }
         Node::Pure(s) => bpaf::pure(V::Const(s.clone())).boxed(),
+        Node::Any(a) => {
+            use std::os::unix::ffi::OsStrExt;
+            let prefixes = a.prefixes.clone();
+            let mut p = bpaf::any::<OsString, _, _>(intern(&a.metavar), move |s: OsString| {
+                let b = s.as_bytes();
+                if prefixes.iter().any(|p| b.starts_with(p.as_bytes())) {
+                    Some(V::Os(b.to_vec()))
+                } else {
+                    None
+                }
+            });
+            if let Some(h) = &a.help {
+                p = p.help(doc(h));
+            }
+            if a.anywhere {
+                p.anywhere().boxed()
+            } else {
+                p.boxed()
+            }
+        }
         Node::Fail(m) => bpaf::fail::<V>(intern(m)).boxed(),
         Node::Seq(xs) => build_seq(xs, false),
         Node::Adjacent(xs) => build_seq(xs, true),
